@@ -15,7 +15,8 @@ use zkabacus_crypto as za;
 
 pub struct C02;
 
-pub const VARIANTS: [&str; 36] = [
+pub const VARIANTS: [&str; 37] = [
+    "fabricated-digit-signature",
     "compensating-shift-customer",
     "compensating-shift-merchant",
     "compensating-shift-lock",
@@ -376,6 +377,43 @@ pub fn run_case(o: &mut Outcome, case: &Value) {
             knobs.cust_digits_msg = Some(vec![127; ndig]);
             knobs.cust_sig_of = Some(vec![127; ndig]);
         }
+        "fabricated-digit-signature" => {
+            // if two published digit signatures share their base point, sigma2(b) - sigma2(a) is
+            // h^(y*(b-a)) and a signature on ANY scalar "digit" can be fabricated: overspend with a
+            // single digit carrying q - k
+            let sigs = &m.range.sigs;
+            let mut pair = None;
+            'search: for a in 0..sigs.len() {
+                for b in (a + 1)..sigs.len() {
+                    if sigs[a].0 == sigs[b].0 {
+                        pair = Some((a, b));
+                        break 'search;
+                    }
+                }
+            }
+            let (a, b) = match pair {
+                Some(p) => p,
+                None => {
+                    o.bump("probe.digit_signatures_have_distinct_bases");
+                    return;
+                }
+            };
+            let diff: Option<Scalar> = Scalar::from((b - a) as u64).invert().into();
+            let hy = (sigs[b].1 - sigs[a].1) * diff.unwrap_or(Scalar::one());
+            let over = rc.cust as i128 + 1 + s.below(1000) as i128;
+            present_amount = over.min(i64::MAX as i128) as i64;
+            let k = (over - rc.cust as i128) as u64;
+            let neg = q_minus(k);
+            // signature on digit `a` moved to "digit" neg: sigma2(a) + (neg - a) * h^y
+            let forged = (sigs[a].0, sigs[a].1 + hy * (neg - Scalar::from(a as u64)));
+            h.new_st[3] = neg;
+            h.new_cl[3] = neg;
+            h.new_st[4] = refc::int_scalar(rc.merch as i128 + over);
+            h.new_cl[4] = h.new_st[4];
+            h.cust_range_value = 0;
+            h.merch_range_value = ((rc.merch as i128 + over) as u128) & (i64::MAX as u128);
+            knobs.cust_digit0 = Some((neg, forged));
+        }
         "close-merchant-balance-mismatch" => {
             // a fully correct state update, but another merchant balance in the close state only
             h.new_cl[4] = if s.chance(1, 2) { Scalar::zero() } else { h.new_cl[4] + Scalar::from(1000u64) };
@@ -417,7 +455,7 @@ pub fn run_case(o: &mut Outcome, case: &Value) {
     if !adaptive {
         let d = pay_draft(m, &h, &token, &knobs, &mut s);
         let shown_b = refc::scb(&shown).to_vec();
-        if !variant.starts_with("invalid-subproof") && !variant.starts_with("compensating-shift") && true_statement(&rc, &h, &shown, present_amount) && token == rc.token && knobs.cust_sig_of.is_none() && knobs.cust_digits_msg.is_none() {
+        if !variant.starts_with("invalid-subproof") && !variant.starts_with("compensating-shift") && true_statement(&rc, &h, &shown, present_amount) && token == rc.token && knobs.cust_sig_of.is_none() && knobs.cust_digits_msg.is_none() && knobs.cust_digit0.is_none() {
             o.bump("probe.degenerate_variant_skipped");
             return;
         }
@@ -714,7 +752,7 @@ impl Prop for C02 {
         v
     }
     fn rule(&self) -> String {
-        "one case = one Byzantine customer session against the real merchant: raw establishment (so the actor knows every scalar), 0-2 honest raw payments to vary the history, one more honest raw payment as accept-the-truth control (closing signature must be on old-balance -/+ amount, a foreign revocation pair must be refused and the right one must complete it), then one variant of the false pay statement: wrong nonce, wrong amount on either balance, negative / above-range balance, foreign channel id, close tag replaced, old-lock commitment to another lock (linked and unlinked), new lock mismatch, token of another key / tampered / on a different state, digit signature for another digit, digits permuted, all-maximal digits, close balance mismatch, sign-flipped amount; or post-challenge choice (probe -> hook -> adapt -> resubmit, up to three rounds) of the revealed nonce scalar (twice on one token: double spend), the close-tag scalar, T of the state / close / lock proof, C of the state / close proof, T of a digit proof (overspend). Distinct = distinct (variant, balances, amount, history, seed); non-trivial = an attack was run".into()
+        "one case = one Byzantine customer session against the real merchant: raw establishment (so the actor knows every scalar), 0-2 honest raw payments to vary the history, one more honest raw payment as accept-the-truth control (closing signature must be on old-balance -/+ amount, a foreign revocation pair must be refused and the right one must complete it), then one variant of the false pay statement: wrong nonce, wrong amount on either balance, negative / above-range balance, foreign channel id, close tag replaced, old-lock commitment to another lock (linked and unlinked), new lock mismatch, token of another key / tampered / on a different state, digit signature for another digit, digits permuted, all-maximal digits, a digit signature fabricated from two published ones that share a base point (when the parameters allow it), close balance mismatch, sign-flipped amount; or post-challenge choice (probe -> hook -> adapt -> resubmit, up to three rounds) of the revealed nonce scalar (twice on one token: double spend), the close-tag scalar, T of the state / close / lock proof, C of the state / close proof, T of a digit proof (overspend). Distinct = distinct (variant, balances, amount, history, seed); non-trivial = an attack was run".into()
     }
     fn assumptions(&self) -> Vec<String> {
         vec![
